@@ -588,6 +588,7 @@ func main() {
 		"loop_seconds":      tLoop.Seconds(),
 		"startup_seconds":   tStart.Seconds(),
 		"timing_seconds":    tTiming.Seconds(),
+		"startup_reruns":    startupFlakes,
 		"cursor_reply_race": race,
 		"size_reply_race":   srace,
 		"timing_note":       "partial: replies are sent at sampled real delays around the 50 ms (CursorPosition) and 100 ms (reportWinsize) time-outs; only liveness of the loop afterwards is checked",
